@@ -33,7 +33,7 @@ static void densityCase(Rng &rng, CaseResult &r) {
   if (p.lineReoptSize < 2 && p.diagReoptSize < 2 && p.squareReoptSize < 2 && !p.unidimensionalTransport) p.lineReoptSize = 2;
   p.coarseningLimit = rng.chance(0.5) ? 100.0 : rng.unif() * 3;
   p.quadraticPenaltyFactor = rng.chance(0.5) ? 0.0 : 1e-3 * rng.unif();
-  int nOps = (int)rng.range(1, 12);
+  int nOps = rng.chance(0.1) ? (int)rng.range(13, 40) : (int)rng.range(1, 12);
   std::vector<int> ops;
   for (int k = 0; k < nOps; ++k) ops.push_back((int)rng.range(0, 8));
   uint64_t targetSeed = rng.next();
